@@ -194,6 +194,114 @@ def write_structure(loops, wakers):
     lines.append('Definition wake_callers : list (string * string) := [' + '; '.join(f'("{f}", "{fn}")' for f, fn in wakers) + '].')
     open(os.path.join(OUT, 'Structure.v'), 'w').write('\n'.join(lines) + '\n')
 
+def args_of(txt, start):
+    """argument list of the call whose '(' is at txt[start]"""
+    depth = 0
+    for i in range(start, len(txt)):
+        if txt[i] == '(': depth += 1
+        elif txt[i] == ')':
+            depth -= 1
+            if depth == 0: return split_top(txt[start + 1:i]), i
+    return [], start
+
+def extract_vmem():
+    """the system calls of vmem_helper::new in program order, and the release sequence of a vmem HeapStorage"""
+    problems = []; calls = []
+    txt = strip_comments(open(os.path.join(REPO, 'src/ring_buffer/storage/heap/vmem_helper.rs')).read())
+    m = re.search(r'pub\(crate\)\s+fn\s+new\b.*?\n\}', txt, re.S)
+    if not m: return [], None, ['vmem_helper::new not found']
+    body = m.group(0)
+    has_fd = False
+    # walk the body: shm_fd / shm_open / memfd_create, mmap calls (possibly inside `for view in [a, b]`), memcpy / copy_nonoverlapping, close
+    pos = 0
+    events = []
+    for mm in re.finditer(r'(shm_fd\s*\(|libc::shm_open\s*\(|libc::memfd_create\s*\(|libc::mmap\s*\(|libc::memcpy\s*\(|copy_nonoverlapping\s*\(|libc::close\s*\(|for\s+(\w+)\s+in\s+\[([^\]]*)\])', body):
+        events.append(mm)
+    loop_var = None; loop_vals = []; loop_end = -1
+    def half_of(expr):
+        e = expr.replace(' ', '')
+        if e in ('buffer', 'ptr::null_mut()', 'core::ptr::null_mut()'): return 'Lo'
+        if re.fullmatch(r'buffer\.byte_add\(size\)|buffer\.add\(size\)', e): return 'Hi'
+        return None
+    for mm in events:
+        tok = mm.group(1)
+        if tok.startswith('for'):
+            loop_var = mm.group(2); loop_vals = split_top(mm.group(3))
+            # extent of the loop body
+            ob = body.index('{', mm.end()); depth = 0
+            for i in range(ob, len(body)):
+                if body[i] == '{': depth += 1
+                elif body[i] == '}':
+                    depth -= 1
+                    if depth == 0: loop_end = i; break
+            continue
+        in_loop = mm.start() < loop_end
+        if tok.startswith(('shm_fd', 'libc::shm_open', 'libc::memfd_create')):
+            calls.append('VShmCreate'); has_fd = True
+        elif tok.startswith('libc::close'):
+            calls.append('VClose')
+        elif tok.startswith('libc::mmap'):
+            a, _ = args_of(body, mm.end() - 1)
+            if len(a) != 6: problems.append('mmap with %d arguments' % len(a)); continue
+            addr, ln, prot, flags, fd, off = [x.strip() for x in a]
+            addrs = [addr]
+            if in_loop and addr == loop_var: addrs = [v.strip() for v in loop_vals]
+            for ad in addrs:
+                if ad.replace(' ', '') in ('ptr::null_mut()', 'core::ptr::null_mut()'):
+                    f = re.match(r'(\d+)\s*\*\s*size', ln.replace('aslibc::size_t', '').replace(' as libc::size_t', '').strip())
+                    halves = int(f.group(1)) if f else (1 if ln.strip().startswith('size') else 0)
+                    if 'MAP_ANONYMOUS' not in flags: problems.append('reservation is not anonymous')
+                    calls.append(f'(VReserve {halves})')
+                else:
+                    h = half_of(ad)
+                    if h is None: problems.append(f'mmap at unrecognised address `{ad}`'); continue
+                    fixed = 'MAP_FIXED' in flags
+                    if not ln.strip().startswith('size'): problems.append(f'view of unexpected length `{ln}`')
+                    if 'MAP_SHARED' in flags and 'MAP_ANONYMOUS' not in flags and fd.strip() not in ('-1',):
+                        o = off.strip()
+                        calls.append(f'(VMapShared {h} {b(fixed)} {0 if o in ("0", "0 as libc::off_t") else 7})')
+                    else:
+                        calls.append(f'(VMapAnon {h} {b(fixed)})')
+        elif tok.startswith('libc::memcpy') or tok.startswith('copy_nonoverlapping'):
+            a, _ = args_of(body, mm.end() - 1)
+            if len(a) != 3: problems.append('copy with %d arguments' % len(a)); continue
+            x, y, n = [z.strip() for z in a]
+            dst, src = (x, y) if tok.startswith('libc::memcpy') else (y, x)
+            to_map = re.match(r'\(?\s*r\b', dst) is not None or dst.startswith('buffer')
+            from_val = 'value' in src
+            full = n.replace(' ', '') in ('size', 'size_of_val(value)', 'sizeaslibc::size_t')
+            if to_map and from_val: calls.append(f'(VCopyIn {b(full)})')
+            elif 'value' in dst: calls.append('VCopyOut')
+            else: problems.append(f'copy with unrecognised operands `{dst}` <- `{src}`')
+    # release: heap/mod.rs
+    hm = strip_comments(open(os.path.join(REPO, 'src/ring_buffer/storage/heap/mod.rs')).read())
+    dm = re.search(r'impl\s*<T>\s*Drop\s+for\s+HeapStorage<T>\s*\{(.*?)\n\}', hm, re.S)
+    drops_first = False; halves = 0
+    if dm:
+        d = dm.group(1)
+        i_drop = d.find('drop_in_place'); i_un = d.find('libc::munmap')
+        drops_first = 0 <= i_drop < i_un
+        if i_un >= 0:
+            a, _ = args_of(d, d.index('(', i_un))
+            ln = a[1].replace(' ', '') if len(a) == 2 else ''
+            if re.fullmatch(r'2\*self\.len\*size_of::<T>\(\)', ln): halves = 2
+            elif re.fullmatch(r'self\.len\*size_of::<(T|UnsafeSyncCell<T>)>\(\)', ln): halves = 1
+            else: problems.append(f'munmap of unrecognised length `{ln}`')
+    else: problems.append('Drop for HeapStorage not found')
+    nm = re.search(r'#\[cfg\(feature = "vmem"\)\]\s*fn\s+new\b(.*?)\n    \}', hm, re.S)
+    forgotten = bool(nm and 'ManuallyDrop' in nm.group(1))
+    return calls, (drops_first, halves, forgotten), problems
+
+def write_vmem(calls, rel, problems):
+    lines = ['(* GENERATED by tools/extract_facts.py from /repo/src on every run - do not edit *)',
+             'From Coq Require Import List.', 'Import ListNotations.', 'Require Import MRB.Model.Vmem.', '',
+             'Definition calls : list vcall := [' + '; '.join(calls) + '].']
+    rel = rel or (False, 0, False)
+    lines.append(f'Definition release : vrelease := mkVR {b(rel[0])} {rel[1]} {b(rel[2])}.')
+    lines.append(f'Definition extractor_clean : bool := {b(not problems)}.')
+    for p in problems: lines.append(f'(* PROBLEM: {p} *)')
+    open(os.path.join(OUT, 'VmemCalls.v'), 'w').write('\n'.join(lines) + '\n')
+
 def b(x): return 'true' if x else 'false'
 
 def write_send(clauses, problems, structure_ok):
@@ -222,6 +330,10 @@ def main():
     write_profile(prof, rd, pp)
     for x in pp: print('extract_facts: PROBLEM:', x)
     print('extract_facts: profile', prof)
+    vc, vr, vp = extract_vmem()
+    write_vmem(vc, vr, vp)
+    for x in vp: print('extract_facts: PROBLEM:', x)
+    print('extract_facts: vmem calls', vc, vr)
     loops, wakers = extract_structure()
     write_structure(loops, wakers)
     print(f'extract_facts: {len(loops)} loops, {len(wakers)} wake calls')
